@@ -2,7 +2,7 @@
    specification in which a string is a vector of Unicode scalar values.            *)
 From Coq Require Import Lia FMapPositive.
 From MW Require Import Model.Base Model.F64 Model.Num Model.Datum Model.TransformDef
-  Model.VmTypes Model.Heap Model.VmBase Model.Str.
+  Model.VmTypes Model.Heap Model.VmBase Model.Str Proofs.VmProofs0.
 Open Scope N_scope.
 
 (* ------------------------------------------------------------------ lists *)
@@ -545,80 +545,56 @@ Corollary str_ci_comp_spec o x y :
 Proof. unfold str_ci_comp. now rewrite str_cmp_code_points. Qed.
 
 (* ======================================================= the VM level: stack *)
-Lemma list_get_eq {A} (l : list A) i : list_get l i = nth_error l (N.to_nat i).
-Proof. destruct l; reflexivity. Qed.
-
-Lemma list_set_nat_length {A} (l : list A) : forall i a, length (list_set_nat l i a) = length l.
-Proof. induction l as [|x l IH]; intros [|i] a; cbn; auto. Qed.
-
-Lemma list_set_nat_same {A} (l : list A) : forall i a,
-  (i < length l)%nat -> nth_error (list_set_nat l i a) i = Some a.
-Proof.
-  induction l as [|x l IH]; intros [|i] a H; cbn in *; try lia; auto. apply IH; lia.
-Qed.
-
-Lemma list_set_nat_other {A} (l : list A) : forall i j a,
-  i <> j -> nth_error (list_set_nat l i a) j = nth_error l j.
-Proof.
-  induction l as [|x l IH]; intros [|i] [|j] a H; cbn; auto; try congruence.
-Qed.
-
-Definition stack_ok (s : vm) : Prop := sp s < len (stack s).
+(* the stack (stack.rs) is a table of slots with capacity [scap]; [sp] indexes the top *)
+Definition stack_ok (s : vm) : Prop := sp s < scap s.
 
 (* the values on top of the stack, topmost first *)
 Definition top_is (s : vm) (vs : list vcell) : Prop :=
-  N.of_nat (length vs) <= sp s /\
-  forall k v, nth_error vs k = Some v -> list_get (stack s) (sp s - N.of_nat k) = Some v.
+  N.of_nat (length vs) <= sp s /\ sp s < scap s /\
+  forall k v, nth_error vs k = Some v -> sget s (sp s - N.of_nat k) = v.
 
 (* what a builtin may change: only the string/vector store and the stack pointer *)
 Definition same_but_sp (s s' : vm) : Prop :=
   st s' = st s /\ hp s' = hp s /\ stack s' = stack s.
 
-Lemma top_is_nil s : top_is s [].
-Proof. split; [cbn; lia|]. intros [|k] v H; discriminate. Qed.
+Lemma top_is_nil s : stack_ok s -> top_is s [].
+Proof. intro H. split; [cbn; lia|]. split; [exact H|]. intros [|k] v Hk; discriminate. Qed.
 
 Lemma push_spec s v vs :
   stack_ok s -> top_is s vs ->
   exists s1, push v s = ROk tt s1 /\ stack_ok s1 /\ top_is s1 (v :: vs) /\
              st s1 = st s /\ hp s1 = hp s /\ sp s1 = sp s + 1.
 Proof.
-  intros Hok [Hlen Htop]. unfold stack_ok in Hok. unfold push.
-  set (l := if sp s + 1 <? len (stack s) then stack s else stack_grow (stack s)).
-  assert (Hl : sp s + 1 < len l).
-  { unfold l. destruct (N.ltb_spec (sp s + 1) (len (stack s))) as [H|H]; [exact H|].
-    unfold stack_grow. rewrite len_length, app_length, repeat_length.
-    rewrite len_length in Hok, H. lia. }
-  assert (Hpre : forall i, i <= sp s -> list_get l i = list_get (stack s) i).
-  { intros i Hi. unfold l. destruct (sp s + 1 <? len (stack s)); [reflexivity|].
-    unfold stack_grow. rewrite !list_get_eq. apply nth_error_app1.
-    rewrite len_length in Hok. lia. }
+  intros Hok (Hlen & _ & Htop). unfold stack_ok in Hok. unfold push.
+  set (cap := if sp s + 1 <? scap s then scap s else scap s * 2).
+  assert (Hcap : sp s + 1 < cap).
+  { unfold cap. destruct (N.ltb_spec (sp s + 1) (scap s)) as [H|H]; lia. }
   eexists. split; [reflexivity|].
-  rewrite len_length in Hl.
-  repeat split; cbn [sp stack st hp with_stack].
-  - unfold stack_ok. cbn [sp stack with_stack]. unfold list_set.
-    rewrite len_length, list_set_nat_length. lia.
-  - cbn [length]. lia.
-  - intros k w Hk. unfold list_set. rewrite list_get_eq.
-    destruct k as [|k]; cbn [nth_error] in Hk.
-    + inversion Hk; subst. replace (sp s + 1 - N.of_nat 0) with (sp s + 1) by (cbn; lia).
-      apply list_set_nat_same. lia.
-    + assert (Hk' : (k < length vs)%nat) by (apply nth_error_Some; congruence).
-      rewrite list_set_nat_other by lia.
-      rewrite <- list_get_eq, Hpre by lia.
-      replace (sp s + 1 - N.of_nat (S k)) with (sp s - N.of_nat k) by lia.
-      now apply Htop.
+  split; [exact Hcap|]. split; [|split; [reflexivity|split; reflexivity]].
+  split; [cbn [length sp with_scap with_stack]; lia|]. split; [exact Hcap|].
+  intros k w Hk. unfold sget. cbn [sp stack with_scap with_stack].
+  destruct k as [|k]; cbn [nth_error] in Hk.
+  - inversion Hk; subst. replace (sp s + 1 - N.of_nat 0) with (sp s + 1) by (cbn; lia).
+    now rewrite tget_tset_same.
+  - assert (Hk' : (k < length vs)%nat) by (apply nth_error_Some; congruence).
+    rewrite tget_tset_other by lia.
+    replace (sp s + 1 - N.of_nat (S k)) with (sp s - N.of_nat k) by lia.
+    now apply Htop.
 Qed.
 
 Lemma pop_raw_top s v vs :
   top_is s (v :: vs) ->
   pop_raw s = ROk v (with_sp s (sp s - 1)) /\ top_is (with_sp s (sp s - 1)) vs.
 Proof.
-  intros [Hlen Htop]. cbn [length] in Hlen. unfold pop_raw.
+  intros (Hlen & Hcap & Htop). cbn [length] in Hlen. unfold pop_raw.
   replace (sp s =? 0) with false by (symmetry; apply N.eqb_neq; lia).
+  replace (sp s <? scap s) with true by (symmetry; now apply N.ltb_lt).
   pose proof (Htop 0%nat v eq_refl) as H0. replace (sp s - N.of_nat 0) with (sp s) in H0 by (cbn; lia).
   rewrite H0. split; [reflexivity|].
-  split; cbn [sp stack with_sp with_stack]; [lia|].
-  intros k w Hk. replace (sp s - 1 - N.of_nat k) with (sp s - N.of_nat (S k)) by lia.
+  split; [cbn [sp with_sp with_stack]; lia|]. split; [cbn [sp scap with_sp with_stack]; lia|].
+  intros k w Hk. change (sget (with_sp s (sp s - 1)) ?i) with (sget s i).
+  cbn [sp with_sp with_stack].
+  replace (sp s - 1 - N.of_nat k) with (sp s - N.of_nat (S k)) by lia.
   now apply Htop.
 Qed.
 
@@ -720,7 +696,7 @@ Lemma call_enter f args s :
              st s1 = st s /\ hp s1 = hp s /\ sp s1 = sp s + len args + 1.
 Proof.
   intro Hok.
-  destruct (push_all_spec args s [] Hok (top_is_nil s)) as (s1 & Hp & Hok1 & Ht1 & Hst & Hhp & Hsp).
+  destruct (push_all_spec args s [] Hok (top_is_nil s Hok)) as (s1 & Hp & Hok1 & Ht1 & Hst & Hhp & Hsp).
   destruct (push_spec s1 (VArgc (len args)) _ Hok1 Ht1) as (s2 & Hp2 & Hok2 & Ht2 & Hst2 & Hhp2 & Hsp2).
   exists s2. unfold run_builtin. rewrite (bindM_ok _ _ _ _ _ Hp), (bindM_ok _ _ _ _ _ Hp2).
   rewrite app_nil_r in Ht2.
@@ -836,15 +812,6 @@ Proof.
 Qed.
 
 (* --------------------------------------------------------- store lemmas *)
-Lemma tget_tset_same {A} (t : tbl A) i a : tget (tset t i a) i = Some a.
-Proof. unfold tget, tset. apply PositiveMap.gss. Qed.
-
-Lemma tget_tset_other {A} (t : tbl A) i j a : i <> j -> tget (tset t i a) j = tget t j.
-Proof.
-  intro H. unfold tget, tset. apply PositiveMap.gso.
-  intro E. apply H. apply N.succ_inj. rewrite <- !N.succ_pos_spec. congruence.
-Qed.
-
 Lemma st_with_store s x : st (with_store s x) = x. Proof. reflexivity. Qed.
 Lemma hp_with_store s x : hp (with_store s x) = hp s. Proof. reflexivity. Qed.
 Lemma sp_with_store s x : sp (with_store s x) = sp s. Proof. reflexivity. Qed.
